@@ -359,6 +359,11 @@ def run_c14(tier):
     th, built = vlib.build_harness_async("dev")
     # (2) programs and thread capabilities
     r_b, ps, thr = progs.enumerate_programs(4 if q else 5, 3)
+    # second family: the _mut set operations between two mutable views (union_mut / intersection_mut take the
+    # second view by value, difference_mut borrows it)
+    r_b2, ps2, _ = progs.enumerate_programs(4 if q else 5, 4, ops=progs.SETOP_OPS, name="c14_setops")
+    ps = ps + ps2
+    r_b = dict(r_b, distinct=r_b.get("distinct", 0) + r_b2.get("distinct", 0), generated=r_b.get("generated", 0) + r_b2.get("generated", 0))
     verdicts = progs.judge(ps, thr)
     foreign_codes = [v for v in verdicts if v["foreign_codes"]]
     if foreign_codes:
